@@ -433,7 +433,13 @@ CASES = [
 def jobs(tier: str, seed: int) -> list[dict]:
     out = []
     B = 300 if tier == 'quick' else 900
-    for code, n, stacks, scripts in CASES:
+    more = [
+        ('NT', 3, (60, 60, 60), ['ccc', 'rfc', 'fRc']), ('NT', 4, (60, 30, 7, 60), ['cccc', 'Rccc']), ('FT', 3, (60, 60, 60), ['crcc']),
+        ('NS', 3, (60, 60, 60), ['ccc']), ('PO', 3, (60, 60, 60), ['ccc', 'rcc']), ('FO8', 3, (60, 60, 60), ['ccc']),
+        ('F7S', 3, (60, 60, 60), ['bcc', 'rcc']), ('F7S8', 3, (60, 60, 60), ['bcc']), ('FR', 3, (60, 60, 60), ['bcc']),
+        ('N2L1D', 3, (60, 60, 60), ['cccdss']), ('F2L3D', 3, (60, 60, 60), ['cccdssdssdss']), ('FB', 3, (60, 60, 60), ['cccddd']),
+    ] if tier == 'thorough' else []
+    for code, n, stacks, scripts in CASES + more:
         for script in scripts:
             out.append(dict(name=f'roundtrip/{code}/n{n}/{script}', fn='h_roundtrip', traced=False,
                             params=dict(code=code, n=n, script=script, stacks=stacks), budget_s=B,
